@@ -92,8 +92,14 @@ def np_ufun(f):
         acc = np.zeros_like(y)
         for i, j, c in f["terms"]:
             acc = acc + float(F(c)) * powr(u, i) * powr(v, j)
-        return as_kind(np_post(f.get("post"), acc), f.get("dt"))
+        v = as_kind(np_post(f.get("post"), acc), f.get("dt"))
+        if f.get("cont") == "irr" and not isinstance(v, list):      # what @aa.grid_dec.to_array hands back on an irregular grid
+            v = import_aa().ArrayIrregular(values=v)
+        RETS.append((v, ret_values(v)))
+        return v
     return g
+RETS = []       # everything the user functions returned in this run_case: a call must not modify it (a profile may return a stored array)
+def ret_values(v): return [float(x) for x in (v if isinstance(v, list) else np.asarray(v).ravel())]
 def np_post(p, acc):
     """what users write with comparisons: indicator / count / sign / floor functions return BOOL or INTEGER arrays"""
     if not p: return acc
@@ -222,6 +228,7 @@ def rand_ifun(rng, m=None, ps=None, og=None):
         f["post"] = {"k": "sign"}; f["dt"] = rng.choice(INT_DT)
     else:
         f["post"] = {"k": "floor"}; f["dt"] = rng.choice(["int64", "int32", "float32", "float64", "list", None])
+    if f["dt"] != "list" and rng.random() < 0.15: f["cont"] = "irr"
     return f
 def rand_fun(rng, m=None, ps=None, og=None, p_int=0.35):
     """a user function: real-valued polynomial (float64; sometimes float32 where exact, or a Python list) or integer-valued"""
@@ -230,18 +237,22 @@ def rand_fun(rng, m=None, ps=None, og=None, p_int=0.35):
     r = rng.random()
     if r < 0.08: f["dt"] = "list"
     elif r < 0.2: f["dt"] = "f32ok"
+    elif r < 0.3: f["cont"] = "irr"
     return f
-BIN_DT = [None, None, "int64", "int32", "int16", "int8", "bool", "uint8", "float32", "float16", "list", "ilist"]
+BIN_DT = [None, None, "int64", "int32", "int16", "int8", "bool", "uint8", "float32", "float16", "list", "ilist", "irr", "iirr"]
 def rand_subvalues(rng, tot, dt):
     """sub-values for binned_array_2d_from, as JSON rationals; `dt` = dtype / container they are passed in (exact casts)"""
     if dt in ("bool",): return [str(rng.randint(0, 1)) for _ in range(tot)]
     if dt in ("uint8",): return [str(rng.randint(0, 9)) for _ in range(tot)]
-    if dt in ("int64", "int32", "int16", "int8", "ilist"): return [str(rng.randint(-9, 9)) for _ in range(tot)]
+    if dt in ("int64", "int32", "int16", "int8", "ilist", "iirr"): return [str(rng.randint(-9, 9)) for _ in range(tot)]
     return [fs(F(rng.randint(-64, 64), 8)) for _ in range(tot)]
 def np_subvalues(vals, dt, util=False):
     """vals: python floats"""
     if dt == "list": return np.array(vals, dtype=float) if util else list(vals)
     if dt == "ilist": return np.array([int(v) for v in vals]) if util else [int(v) for v in vals]
+    if dt in ("irr", "iirr"):
+        a = np.array(vals, dtype=float) if dt == "irr" else np.array([int(v) for v in vals])
+        return a if util else import_aa().ArrayIrregular(values=a)
     return np.array(vals, dtype=float).astype(dt) if dt else np.array(vals, dtype=float)
 def maybe_scaled(rng, f, p=0.15):
     return scaled(f, rng.choice([-40, -30, -20, 20, 30])) if rng.random() < p else f
@@ -608,6 +619,10 @@ class Ctx:
             try: msg = w(o)
             except Exception as e: msg = "unreadable: " + type(e).__name__
             if msg: bad.append(f"input modified by a call: {msg} ({k[:80]})")
+        for v, snap in RETS:
+            try: ok = ret_values(v) == snap
+            except Exception: ok = False
+            if not ok: bad.append("the array returned by the user function was modified by the call"); break
         for what, obj, conv, snap in self.results:
             try: ok = conv(obj) == snap
             except Exception: ok = False
@@ -709,15 +724,19 @@ class Env:
         sub = bool(os.get("sub"))
         if sub:      # instances of user SUBCLASSES of the configuration classes
             OverSamplingUniform, OverSamplingIterate = user_subclasses()[1:]
+        def w_iter(thr, rel, steps):       # the configuration object must still hold what the caller put there
+            return lambda o: None if (o.fractional_accuracy, o.relative_accuracy, list(o.sub_steps)) == (thr, rel, list(steps)) else "OverSamplingIterate attributes"
         if os["kind"] == "int":
-            return self.ctx.get(["os", "int", os["s"], sub], lambda: OverSamplingUniform(sub_size=int(os["s"])))
+            return self.ctx.get(["os", "int", os["s"], sub], lambda: OverSamplingUniform(sub_size=int(os["s"])),
+                                lambda o: None if type(o.sub_size) is int and o.sub_size == int(os["s"]) else "OverSamplingUniform.sub_size")
         if os["kind"] == "map":
             return self.ctx.get(["os", "map", self.mkey, os["ss"], bool(os.get("fl")), os.get("ssder"), sub],
                                 lambda: OverSamplingUniform(sub_size=self.ssmap(os["ss"], bool(os.get("fl")), os.get("ssder"))))
         if os.get("default"):      # every argument left at its default: fractional accuracy 0.9999, schedule [2, 4, 8, 16]
-            return self.ctx.get(["os", "iter-default"], lambda: OverSamplingIterate())
+            return self.ctx.get(["os", "iter-default"], lambda: OverSamplingIterate(), w_iter(0.9999, None, [2, 4, 8, 16]))
         return self.ctx.get(["os", "iter", os["thr"], os["rel"], os["steps"], sub],
-                            lambda: OverSamplingIterate(fractional_accuracy=fl(os["thr"]), relative_accuracy=fl(os["rel"]), sub_steps=list(os["steps"])))
+                            lambda: OverSamplingIterate(fractional_accuracy=fl(os["thr"]), relative_accuracy=fl(os["rel"]), sub_steps=list(os["steps"])),
+                            w_iter(fl(os["thr"]), fl(os["rel"]), os["steps"]))
     def grid(self, os, via):
         """the Grid2D a decorated method is called with"""
         from autoarray.dataset.grids import GridsDataset
@@ -864,7 +883,9 @@ def run_one(inp, ctx):
             def func(obj, grid, *a, **k): g = np.array(grid); return fn(g[:, 0], g[:, 1])
             smp = ctx.get(["ismp", env.mkey, os["thr"], os["rel"], os["steps"]],
                           lambda: OverSamplerIterate(mask=env.mask(), fractional_accuracy=fl(os["thr"]), relative_accuracy=fl(os["rel"]),
-                                                     sub_steps=list(os["steps"])))
+                                                     sub_steps=list(os["steps"])),
+                          lambda o: None if (o.fractional_accuracy, o.relative_accuracy, list(o.sub_steps)) == (fl(os["thr"]), fl(os["rel"]), list(os["steps"]))
+                                    else "OverSamplerIterate attributes")
             res = call_res(lambda: smp.array_via_func_from(func, None))
         else:
             grid = env.grid(os, inp["via"])
@@ -954,7 +975,7 @@ def run_hgrid(inp, ctx):
 def run_case(inp):
     import_aa()
     op = inp["op"]
-    ctx = Ctx(share=bool(inp.get("share")))
+    ctx = Ctx(share=bool(inp.get("share"))); del RETS[:]
     finding = None; nontrivial = True; kind = op
     if op == "seq":
         terms = []; outs = []
